@@ -11,6 +11,7 @@ CONSTANTS Groups,        \* fan-out of the job tree
           NameLen2,      \* names over the 2-septet alphabet up to this length
           NameLen4,      \* names over the 4-septet alphabet up to this length
           Chunk,         \* durations / values per job
+          AmbrAllPairs,  \* TRUE: every pair of units for the two directions; FALSE: one partner unit per unit
           T3Dense        \* timer 3: every duration 0..T3Dense, beyond that windows around every multiple of 10 h
 
 VARIABLE job
@@ -51,10 +52,10 @@ NamesOf(n, A, c) == {<<c>> \o t : t \in [1..(n - 1) -> A]}
 JobHolds(j) ==
   CASE j[1] = "root" -> TRUE
     [] j[1] = "group" -> TRUE
-    [] j[1] = "t2" -> \A d \in ChunkOf(j[2], Timer2Max) : Timer2Law(d) /\ Timer2Best(d)
-    [] j[1] = "t3w" -> \A d \in Clip((36000 * j[2] - 128)..(36000 * j[2] + 128), Timer3Max) : Timer3Law(d) /\ Timer3Best(d)
+    [] j[1] = "t2" -> \A d \in ChunkOf(j[2], Timer2Max) : Timer2Law(d) /\ (d % 16 \in {0, 1, 15} => Timer2Best(d))
+    [] j[1] = "t3w" -> \A d \in Clip((36000 * j[2] - 24)..(36000 * j[2] + 24), Timer3Max) : Timer3Law(d) /\ Timer3Best(d)
     [] j[1] = "t3" -> \A d \in ChunkOf(j[2], Min(T3Dense, Timer3Max)) : Timer3Law(d) /\ (d % 64 = j[2] % 64 => Timer3Best(d))
-    [] j[1] = "ambr" -> \A v \in ChunkOf(j[3], 65535) : \A u2 \in 1..5 :
+    [] j[1] = "ambr" -> \A v \in ChunkOf(j[3], 65535) : \A u2 \in (IF AmbrAllPairs THEN 1..5 ELSE {(j[2] % 5) + 1}) :
                            AmbrLaw(v, AmbrUnits[j[2]], 65535 - v, AmbrUnits[u2])
     [] j[1] = "zone" ->
          /\ \A q \in ZoneRange, dst \in DstRange : ZoneLaw(q, dst)
